@@ -72,7 +72,7 @@ func universe(s Sequence) ([]uint64, []string) {
 }
 
 // doWrite performs a write operation on the store.
-func doWrite(ctx context.Context, st store.Store, op Op, mt *Mat) error {
+func doWrite(ctx context.Context, st store.Store, op Op, mt *Mat, cb *callerBufs) error {
 	switch op.K {
 	case "save_new", "save_same", "save_diff":
 		sig := append(mt.Pool[op.Dat].Sig[:0:0], mt.Pool[op.Dat].Sig...)
@@ -86,9 +86,14 @@ func doWrite(ctx context.Context, st store.Store, op Op, mt *Mat) error {
 	case "setheight":
 		return st.SetHeight(ctx, op.H)
 	case "state":
-		return st.UpdateState(ctx, mt.state(op))
+		// state and metadata values come out of buffers the caller reuses and overwrites (alias.go)
+		err := st.UpdateState(ctx, cb.stateValue(mt.state(op)))
+		cb.scribble("")
+		return err
 	case "setmeta":
-		return st.SetMetadata(ctx, op.Key, mt.metaVal(op))
+		err := st.SetMetadata(ctx, op.Key, cb.metaValue(op.Key, mt.metaVal(op)))
+		cb.scribble(op.Key)
+		return err
 	}
 	return nil
 }
@@ -145,6 +150,10 @@ func runMem(r *vk.Run, s Sequence, mt *Mat, heights []uint64, keys []string, cra
 	st := store.New(dsp)
 	m := newModel()
 	res := seqResult{}
+	cb := newCallerBufs() // the caller's buffers outlive a reopen
+	if crashAfter < 0 {
+		defer func() { r.Count("setmeta_same_length_other_contents_from_the_reused_buffer", cb.reused) }()
+	}
 	ck := &checker{ctx: ctx, st: st, m: m, hit: r.Hit, count: r.Count}
 	if crashAfter >= 0 {
 		ck.hit = func(string) {}
@@ -185,7 +194,7 @@ func runMem(r *vk.Run, s Sequence, mt *Mat, heights []uint64, keys []string, cra
 			continue
 		}
 		before := dsp.Writes()
-		err := doWrite(ctx, st, op, mt)
+		err := doWrite(ctx, st, op, mt, cb)
 		did := dsp.Writes() - before
 		res.writes += did
 		if err != nil {
@@ -353,6 +362,7 @@ func runBadger(r *vk.Run, base string, s Sequence, mt *Mat, heights []uint64, ke
 	}
 	st := store.New(kvs)
 	m := newModel()
+	cb := newCallerBufs()
 	ck := &checker{ctx: ctx, st: st, m: m, hit: func(c string) { r.Hit("badger:" + c) }, count: r.Count}
 	reopen := func(where string, check bool) bool {
 		if err := closeDS(kvs); err != nil {
@@ -399,7 +409,7 @@ func runBadger(r *vk.Run, base string, s Sequence, mt *Mat, heights []uint64, ke
 			ck.read(op, mt)
 			continue
 		}
-		if err := doWrite(ctx, st, op, mt); err != nil {
+		if err := doWrite(ctx, st, op, mt, cb); err != nil {
 			if isEnvErr(err) {
 				inconclusive = fmt.Sprintf("badger op %d %s: %v", i, op.K, err)
 				ok = false
@@ -471,6 +481,12 @@ func runSequence(r *vk.Run, base string, s Sequence) {
 			}
 		}
 	}
+	if crashFreeOK && (!r.Quick() || s.ID%2 == 0) {
+		// the same history once more (quick: every second sequence) with every write started inside a read of the record it replaces (overlap.go)
+		if probs := runOverlap(r, s, mt, heights, keys); len(probs) > 0 {
+			r.Violation("overlap-"+clauseOf(probs[0]), fmt.Sprintf("sequence %d (in-memory datastore, reads overlapping writes): %s", s.ID, strings.Join(trim(probs, 6), " ;; ")), witness(map[string]any{"datastore": "memds", "mode": "every write is started on another goroutine right after the first or second datastore access of a read of the same record, and runs to completion before that read carries on"}))
+		}
+	}
 	r.Count("durable_writes", int64(res.writes))
 	if s.Badger {
 		probs, inconc := runBadger(r, base, s, mt, heights, keys)
@@ -500,7 +516,7 @@ func trim(s []string, n int) []string {
 // Run is the check entry point.
 func Run(r *vk.Run) {
 	world.Silence()
-	r.Rule = "seeded sequences of 30-200 store operations (save at a fresh height / same header again with same or other data+signature / another header at an occupied height; blocks that commit to their data, plus irregular ones a store may refuse: height 0, no metadata, foreign signature, unrelated DataHash; SetHeight lower|equal|higher; UpdateState; SetMetadata over the node's keys d, l, last-submitted-*-height, rhb/<h>/h|d; state and metadata values up to 200 B and of 60 KiB..3 MiB; every read on present and missing targets incl. hashes of overwritten headers; reopen, in every other sequence with nothing read before the next operation) over 4-14 heights from small runs and boundary values; each sequence runs on the in-memory datastore, with a crash at every one of its durable writes (quick: for every third sequence; the state after the crash must equal the model without or with the whole cut operation), one in four also on Badger on disk with close+reopen; 24 | 200 SIGKILLs of a child writing to Badger (all-or-nothing per height; everything acknowledged before the kill reads back); non-trivial = >=1 overwrite or reopen; distinct by operation-kind sequence"
+	r.Rule = "seeded sequences of 30-200 store operations (save at a fresh height / same header again with same or other data+signature / another header at an occupied height; blocks that commit to their data, plus irregular ones a store may refuse: height 0, no metadata, foreign signature, unrelated DataHash; SetHeight lower|equal|higher; UpdateState; SetMetadata over the node's keys d, l, last-submitted-*-height, rhb/<h>/h|d; state and metadata values up to 200 B and of 60 KiB..3 MiB; every read on present and missing targets incl. hashes of overwritten headers; reopen, in every other sequence with nothing read before the next operation) over 4-14 heights from small runs and boundary values; each sequence runs on the in-memory datastore, with a crash at every one of its durable writes (quick: for every third sequence; the state after the crash must equal the model without or with the whole cut operation), once more (quick: every second sequence) with every write started inside a read of the record it replaces (the write runs to completion between the read's datastore access and its return; everything read afterwards is judged), one in four also on Badger on disk with close+reopen; 24 | 200 SIGKILLs of a child writing to Badger (all-or-nothing per height; everything acknowledged before the kill reads back); non-trivial = >=1 overwrite or reopen; distinct by operation-kind sequence"
 	r.Assume("in-memory runs: Batch.Commit of the datastore double is atomic and Put is durable (checked against real Badger only by close+reopen and process kill)")
 	r.Assume("process kill, not power loss: writes that returned before a SIGKILL are required to be readable afterwards (measured on the unchanged tree: 300 of 300 kills), nothing is claimed about unsynced writes and a power cut")
 	r.Assume("a write that returns an error is tolerated only for inputs a store may validate (SetHeight that does not raise the height, irregular blocks, state without chain id) and only if nothing changed")
@@ -550,6 +566,9 @@ func Run(r *vk.Run) {
 	}
 	close(ch)
 	wg.Wait()
+	if !storesSerialise.Load() {
+		r.Require("read-overlapping-a-write", int64(n)*3)
+	}
 
 	runKills(r, base)
 }
